@@ -16,6 +16,9 @@
 (*             [d, c] projections of the two points in the order of the SDK's own  *)
 (*             timestamps, q1, q2 = the same with x's two results swapped (the     *)
 (*             structural time relations re-projected for that order)              *)
+(*         Mid{sc, ops, obs, x, m, p1, p2}   see TMid                               *)
+(*         every line carries conc: the operations since the last collection point *)
+(*             were issued by several goroutines at once (their order is unknown)  *)
 (* Reader data: [has, temp, dt, junk, pts[a]];  point: [p, x, v, n, s, b, z, sc,   *)
 (*   pos, neg, sle, sprev, sgap, scont, sfirst]  (see docs/notes/C08.md).  The      *)
 (*   timestamps of the real points are projected by the harness onto STRUCTURAL    *)
@@ -71,8 +74,11 @@ BagClauses(cf, R, b) ==
   \cup (IF cf.agg = "expo" /\ R.z # ExpoZero(cf, b) THEN {"zero-count"} ELSE {})
   \cup (IF cf.agg = "expo" /\ ~ExpoMatches(cf, R, b) THEN {"buckets"} ELSE {})
 
-ValueClauses(cf, E, R) ==
-  IF cf.agg \in {"sum", "last"} THEN (IF R.v # E.v THEN {"value"} ELSE {})
+(* adm: the admissible gauge values when the measurements of the cycle were made by   *)
+(* several goroutines at once ({} = sequential cycle: exactly the model's last value)  *)
+ValueClauses(cf, E, R, adm) ==
+  IF cf.agg = "last" /\ adm # {} THEN (IF R.v \notin adm THEN {"value"} ELSE {})
+  ELSE IF cf.agg \in {"sum", "last"} THEN (IF R.v # E.v THEN {"value"} ELSE {})
   ELSE LET c1 == BagClauses(cf, R, E.bag) IN
        IF c1 = {} THEN {} ELSE IF E.bag2 # E.bag /\ BagClauses(cf, R, E.bag2) = {} THEN {} ELSE c1
 
@@ -99,11 +105,11 @@ ZeroPoint(cf, R) ==
 
 (* a synchronous gauge a cumulative reader still reports in a cycle without a        *)
 (* recording (E.o): the statement fixes no value for it                              *)
-PtClauses(cf, rd, E, R) ==
+PtClauses(cf, rd, E, R, adm) ==
   IF ~R.p THEN (IF E.p /\ ~E.o THEN {"set-missing"} ELSE {})
   ELSE IF ~E.p THEN (IF rd = "d" /\ ~Async(cf) /\ ZeroPoint(cf, R) THEN TimeClauses(cf, rd, R) ELSE {"set-extra"})
   ELSE (IF ~R.x THEN {"inexact"} ELSE {})
-       \cup (IF cf.agg = "last" /\ E.o THEN {} ELSE ValueClauses(cf, E, R))
+       \cup (IF cf.agg = "last" /\ E.o THEN {} ELSE ValueClauses(cf, E, R, adm))
        \cup TimeClauses(cf, rd, R)
 
 WantTemp(cf, rd) == IF cf.agg = "last" THEN "none" ELSE IF rd = "d" THEN "delta" ELSE "cumulative"
@@ -116,9 +122,15 @@ MetaClauses(cf, rd, D) ==
 ShapeOK(cf, D) == /\ Len(D.pts) = cf.na
                   /\ \A a \in 1..cf.na : D.pts[a].p /\ cf.agg = "hist" => Len(D.pts[a].b) = Len(cf.bounds) + 1
 
-AbsViols(cf, rd, O, D) ==
+(* With concurrent recorders the content of a cycle is a MULTISET of measurements: sums, *)
+(* counts and buckets do not depend on an order; of a gauge the statement's "last value  *)
+(* recorded in the cycle" is only decidable as "one of the values recorded in the cycle". *)
+GaugeAdm(cf, s1, conc) ==
+  [a \in 1..cf.na |-> IF conc THEN {Val(cf, j) : j \in {q \in 1..NV(cf) : s1.cur[a].cnt[q] > 0}} ELSE {}]
+
+AbsViols(cf, rd, O, D, G) ==
   {[rd |-> rd, a |-> 0, clause |-> c] : c \in MetaClauses(cf, rd, D)}
-  \cup UNION {{[rd |-> rd, a |-> a, clause |-> c] : c \in PtClauses(cf, rd, O.pts[a], D.pts[a])} : a \in 1..cf.na}
+  \cup UNION {{[rd |-> rd, a |-> a, clause |-> c] : c \in PtClauses(cf, rd, O.pts[a], D.pts[a], G[a])} : a \in 1..cf.na}
 
 -----------------------------------------------------------------------------
 (* relational monitor: running totals of the REAL delta values per attribute set. *)
@@ -176,7 +188,8 @@ TCycle ==
          m1 == NextMon(C, mon, T.d)
          shape == ShapeOK(C, T.d) /\ ShapeOK(C, T.c)
          viols == IF ~shape THEN {[rd |-> "?", a |-> 0, clause |-> "shape"]}
-                  ELSE AbsViols(C, "d", s2.out.d, T.d) \cup AbsViols(C, "c", s2.out.c, T.c)
+                  ELSE AbsViols(C, "d", s2.out.d, T.d, GaugeAdm(C, s1, T.conc))
+                       \cup AbsViols(C, "c", s2.out.c, T.c, GaugeAdm(C, s1, T.conc))
                        \cup RelViols(C, m1, T.c)
      IN /\ st' = s2
         /\ mon' = IF shape THEN m1 ELSE mon
@@ -185,9 +198,9 @@ TCycle ==
 
 (* the violations of one collection point with projections P = [d, c], model state s2, *)
 (* monitor m1 = the monitor after P.d                                                  *)
-PointViols(s2, m1, P) ==
+PointViols(s2, m1, P, G) ==
   IF ~(ShapeOK(C, P.d) /\ ShapeOK(C, P.c)) THEN {[rd |-> "?", a |-> 0, clause |-> "shape"]}
-  ELSE AbsViols(C, "d", s2.out.d, P.d) \cup AbsViols(C, "c", s2.out.c, P.c) \cup RelViols(C, m1, P.c)
+  ELSE AbsViols(C, "d", s2.out.d, P.d, G) \cup AbsViols(C, "c", s2.out.c, P.c, G) \cup RelViols(C, m1, P.c)
 
 TOver ==
   /\ l <= Len(Trace) /\ Trace[l].ev = "Over"
@@ -200,8 +213,10 @@ TOver ==
          mp2 == IF shape(T.p2) THEN NextMon(C, mp1, T.p2.d) ELSE mp1
          mq1 == IF shape(T.q1) THEN NextMon(C, mon, T.q1.d) ELSE mon
          mq2 == IF shape(T.q2) THEN NextMon(C, mq1, T.q2.d) ELSE mq1
-         vp == PointViols(s2, mp1, T.p1) \cup PointViols(s3, mp2, T.p2)
-         vq == PointViols(s2, mq1, T.q1) \cup PointViols(s3, mq2, T.q2)
+         g1 == GaugeAdm(C, s1, T.conc)
+         g2 == GaugeAdm(C, s2, FALSE)
+         vp == PointViols(s2, mp1, T.p1, g1) \cup PointViols(s3, mp2, T.p2, g2)
+         vq == PointViols(s2, mq1, T.q1, g1) \cup PointViols(s3, mq2, T.q2, g2)
          useq == vp # {} /\ vq = {}
          viols == IF vp = {} \/ vq = {} THEN {} ELSE vp      \* neither serial order explains the pair
      IN /\ st' = s3
@@ -209,9 +224,46 @@ TOver ==
         /\ \A v \in viols : Viol([line |-> l, sc |-> T.sc, rd |-> v.rd, a |-> v.a, clause |-> v.clause, over |-> T.x])
   /\ l' = l + 1 /\ UNCHANGED C
 
+(* Mid: two collection points k, k+1 of a synchronous stream with ONE measurement m made  *)
+(* WHILE reader x was collecting at point k (x was held inside the collection of this     *)
+(* stream's exemplars; the other reader y had collected point k before, both collect      *)
+(* k+1 right after).  Point k is not quiescent for x: m belongs to x's cycle k+1 (run A)  *)
+(* or to its cycle k (run B) -- either explains x; for y it is after point k.  At the      *)
+(* quiescent point k+1 every clause is exact again: the absolute ones and the relational   *)
+(* one (a measurement lost in the window leaves cumulative # running delta for ever).      *)
+TMid ==
+  /\ l <= Len(Trace) /\ Trace[l].ev = "Mid"
+  /\ LET T == Trace[l]
+         x == T.x
+         y == IF x = "d" THEN "c" ELSE "d"
+         Of(P, r) == IF r = "d" THEN P.d ELSE P.c
+         Out(s, r) == IF r = "d" THEN s.out.d ELSE s.out.c
+         a0 == ApplyOps(C, st, T.ops)
+         sA1 == DoCollect(C, a0, T.obs)
+         aA == ApplyOps(C, sA1, T.m)
+         sA2 == DoCollect(C, aA, T.obs)
+         b0 == ApplyOps(C, a0, T.m)
+         sB1 == DoCollect(C, b0, T.obs)
+         sB2 == DoCollect(C, sB1, T.obs)
+         gA1 == GaugeAdm(C, a0, T.conc)
+         gA2 == GaugeAdm(C, aA, FALSE)
+         gB1 == GaugeAdm(C, b0, T.conc)
+         gB2 == GaugeAdm(C, sB1, FALSE)
+         shape == ShapeOK(C, T.p1.d) /\ ShapeOK(C, T.p1.c) /\ ShapeOK(C, T.p2.d) /\ ShapeOK(C, T.p2.c)
+         m2 == NextMon(C, NextMon(C, mon, T.p1.d), T.p2.d)
+         vy == AbsViols(C, y, Out(sA1, y), Of(T.p1, y), gA1) \cup AbsViols(C, y, Out(sA2, y), Of(T.p2, y), gA2)
+         vxa == AbsViols(C, x, Out(sA1, x), Of(T.p1, x), gA1) \cup AbsViols(C, x, Out(sA2, x), Of(T.p2, x), gA2)
+         vxb == AbsViols(C, x, Out(sB1, x), Of(T.p1, x), gB1) \cup AbsViols(C, x, Out(sB2, x), Of(T.p2, x), gB2)
+         viols == IF ~shape THEN {[rd |-> "?", a |-> 0, clause |-> "shape"]}
+                  ELSE vy \cup RelViols(C, m2, T.p2.c) \cup (IF vxa = {} \/ vxb = {} THEN {} ELSE vxa)
+     IN /\ st' = sA2
+        /\ mon' = IF shape THEN m2 ELSE mon
+        /\ \A v \in viols : Viol([line |-> l, sc |-> T.sc, rd |-> v.rd, a |-> v.a, clause |-> v.clause, over |-> "mid-" \o x])
+  /\ l' = l + 1 /\ UNCHANGED C
+
 TDone == l = Len(Trace) + 1 /\ Accepted(l) /\ UNCHANGED vars
 
-Next == TNew \/ TCycle \/ TOver \/ TDone
+Next == TNew \/ TCycle \/ TOver \/ TMid \/ TDone
 Spec == Init /\ [][Next]_vars
 
 (* the statement holds on the model image of every real history, at every step *)
